@@ -210,7 +210,7 @@ theorem get_put_self {r : Reg} {m : MId} (h : m < r.size) (st : MState) : (r.put
   simp [h]
 
 theorem get_put_ne {r : Reg} {m m' : MId} (h : m' ≠ m) (st : MState) : (r.put m st).get m' = r.get m' := by
-  simp [Reg.get, Reg.put, List.getElem?_set, Ne.symm h]
+  simp [Reg.get, Reg.put, Ne.symm h]
 
 theorem get_of_size_le {r : Reg} {m : MId} (h : r.size ≤ m) : r.get m = {} := by
   simp [Reg.get, Reg.size] at *
@@ -374,6 +374,300 @@ theorem hasSub_total_aux {r : Reg} {rk : MId → Nat} (hrk : ∀ m c, r.child m 
     apply hasSubList_ok
     intro c hc
     exact ih c (m :: vis) (hch.cons hrk hcl hc) (by simp; omega)
+
+end Reg
+
+
+/-! ### enumeration -/
+
+theorem ResolvesP.functional {r : Reg} {m : MId} {path : Path} {p p' : PId}
+    (h : ResolvesP r m path p) (h' : ResolvesP r m path p') : p = p' := by
+  induction h with
+  | here h1 =>
+    cases h' with
+    | here h2 => rw [h1] at h2; exact Option.some.inj h2
+    | sub _ h3 => cases h3
+  | sub h1 h2 ih =>
+    cases h' with
+    | here _ => cases h2
+    | sub h3 h4 =>
+      rw [h1] at h3
+      cases Option.some.inj h3
+      exact ih h4
+
+theorem ResolvesM.functional {r : Reg} {m : MId} {path : Path} {c c' : MId}
+    (h : ResolvesM r m path c) (h' : ResolvesM r m path c') : c = c' := by
+  induction h with
+  | here h1 =>
+    cases h' with
+    | here h2 => rw [h1] at h2; exact Option.some.inj h2
+    | sub _ h3 => cases h3
+  | sub h1 h2 ih =>
+    cases h' with
+    | here _ => cases h2
+    | sub h3 h4 =>
+      rw [h1] at h3
+      cases Option.some.inj h3
+      exact ih h4
+
+namespace Reg
+
+theorem emplaceOwn_eq (kv : List (Name × PId)) (acc : PMap) :
+    emplaceOwn kv acc = foldEmplace (fun e : Name × PId => [e.1]) (·.2) kv acc := rfl
+
+theorem emplaceSub_eq (pre : Name) (sub acc : PMap) :
+    emplaceSub pre sub acc = foldEmplace (fun e : Path × PId => pre :: e.1) (·.2) sub acc := rfl
+
+theorem getAllSubs_ok {rec : MId → Res PMap} {kv : List (Name × MId)} {acc : PMap}
+    (h : ∀ e ∈ kv, ∃ l, rec e.2 = .ok l) : ∃ l, getAllSubs rec kv acc = .ok l := by
+  induction kv generalizing acc with
+  | nil => exact ⟨acc, rfl⟩
+  | cons e rest ih =>
+    obtain ⟨n, sm⟩ := e
+    obtain ⟨l, hl⟩ := h (n, sm) (by simp)
+    simp only [getAllSubs, hl]
+    exact ih (fun e he => h e (by simp [he]))
+
+theorem getAllSubs_rec_ok {rec : MId → Res PMap} {kv : List (Name × MId)} {acc l : PMap}
+    (h : getAllSubs rec kv acc = .ok l) : ∀ e ∈ kv, ∃ sub, rec e.2 = .ok sub := by
+  induction kv generalizing acc with
+  | nil => simp
+  | cons e rest ih =>
+    obtain ⟨n, sm⟩ := e
+    simp only [getAllSubs] at h
+    split at h
+    · rename_i sub hsub
+      intro e he
+      rcases List.mem_cons.1 he with he | he
+      · subst he; exact ⟨sub, hsub⟩
+      · exact ih h e he
+    · simp at h
+    · simp at h
+
+theorem getAllSubs_sorted {rec : MId → Res PMap} {kv : List (Name × MId)} {acc l : PMap}
+    (h : getAllSubs rec kv acc = .ok l) (hs : Sorted acc) : Sorted l := by
+  induction kv generalizing acc with
+  | nil => simp only [getAllSubs, Res.ok.injEq] at h; subst h; exact hs
+  | cons e rest ih =>
+    obtain ⟨n, sm⟩ := e
+    simp only [getAllSubs] at h
+    split at h
+    · exact ih h (by rw [emplaceSub_eq]; exact foldEmplace_sorted _ _ hs)
+    · simp at h
+    · simp at h
+
+/-- `get_all_parameters` returns a `std::map`: strictly increasing keys. -/
+theorem getAll_sorted {r : Reg} {f : Nat} {m : MId} {l : PMap} (h : getAll r f m = .ok l) : Sorted l := by
+  cases f with
+  | zero => simp [getAll] at h
+  | succ f =>
+    simp only [getAll] at h
+    refine getAllSubs_sorted h ?_
+    rw [emplaceOwn_eq]
+    exact foldEmplace_sorted _ _ (by simp [Sorted])
+
+/-- the outer loop, for a recursive call that meets its specification -/
+theorem getAllSubs_spec {r : Reg} {m : MId} {rec : MId → Res PMap}
+    (hrec : ∀ sm sub, rec sm = .ok sub → ∀ path p, (path, p) ∈ sub ↔ ResolvesP r sm path p)
+    {kv : List (Name × MId)} (hkv : ∀ e ∈ kv, kvFind (r.get m).subKv e.1 = some e.2)
+    {acc l : PMap} (hacc : ∀ x ∈ acc, ResolvesP r m x.1 x.2) (h : getAllSubs rec kv acc = .ok l) :
+    (∀ x ∈ l, ResolvesP r m x.1 x.2) ∧ (∀ x ∈ acc, x ∈ l) ∧
+    (∀ e ∈ kv, ∀ sub, rec e.2 = .ok sub → ∀ x ∈ sub, (e.1 :: x.1, x.2) ∈ l) := by
+  induction kv generalizing acc with
+  | nil =>
+    simp only [getAllSubs, Res.ok.injEq] at h; subst h
+    exact ⟨hacc, fun x hx => hx, by simp⟩
+  | cons e rest ih =>
+    obtain ⟨n, sm⟩ := e
+    simp only [getAllSubs] at h
+    split at h
+    · rename_i sub hsub
+      have hfind := hkv (n, sm) (by simp)
+      have hsubP : ∀ x ∈ sub, ResolvesP r m (n :: x.1) x.2 := fun x hx =>
+        .sub hfind ((hrec sm sub hsub x.1 x.2).1 hx)
+      have hacc' : ∀ x ∈ emplaceSub n sub acc, ResolvesP r m x.1 x.2 := by
+        intro x hx
+        rw [emplaceSub_eq] at hx
+        rcases foldEmplace_mem _ _ hx with hx | ⟨e, he, hx⟩
+        · exact hacc x hx
+        · subst hx; exact hsubP e he
+      obtain ⟨h1, h2, h3⟩ := ih (fun e he => hkv e (by simp [he])) hacc' h
+      refine ⟨h1, fun x hx => h2 x (by rw [emplaceSub_eq]; exact foldEmplace_sub _ _ hx), ?_⟩
+      intro e he sub' hsub' x hx
+      rcases List.mem_cons.1 he with he | he
+      · subst he
+        simp only at hsub'
+        rw [hsub] at hsub'
+        cases hsub'
+        apply h2
+        rw [emplaceSub_eq]
+        exact foldEmplace_complete (fun e : Path × PId => n :: e.1) (·.2) (fun k v => ResolvesP r m k v)
+          (fun _ _ _ a b => a.functional b) hacc hsubP x hx
+      · exact h3 e he sub' hsub' x hx
+    · simp at h
+    · simp at h
+
+/-- `get_all_parameters` lists exactly the (path, parameter) pairs that resolve;
+needs only that the two maps of every model have one entry per name. -/
+theorem getAll_spec {r : Reg} (hwf : ∀ m, (r.get m).wf) {f : Nat} {m : MId} {l : PMap} (h : getAll r f m = .ok l) :
+    ∀ path p, (path, p) ∈ l ↔ ResolvesP r m path p := by
+  induction f generalizing m l with
+  | zero => simp [getAll] at h
+  | succ f ih =>
+    simp only [getAll] at h
+    have hown : ∀ x ∈ emplaceOwn (r.get m).paramKv [], ResolvesP r m x.1 x.2 := by
+      intro x hx
+      rw [emplaceOwn_eq] at hx
+      rcases foldEmplace_mem _ _ hx with hx | ⟨e, he, hx⟩
+      · simp at hx
+      · subst hx; exact .here (kvFind_of_mem (hwf m).pkeys_nodup he)
+    obtain ⟨h1, h2, h3⟩ := getAllSubs_spec (r := r) (m := m) (fun sm sub hs => ih hs)
+      (fun e he => kvFind_of_mem (hwf m).skeys_nodup he) hown h
+    intro path p
+    constructor
+    · exact fun hx => h1 _ hx
+    · intro hres
+      cases hres with
+      | here hfind =>
+        apply h2
+        rw [emplaceOwn_eq]
+        rename_i n
+        exact foldEmplace_complete (fun e : Name × PId => [e.1]) (·.2) (fun k v => ResolvesP r m k v)
+          (fun _ _ _ a b => a.functional b) (by simp)
+          (fun e he => .here (kvFind_of_mem (hwf m).pkeys_nodup he)) (n, p) (kvFind_some_mem hfind)
+      | sub hfind hsub =>
+        rename_i n c path'
+        have hmem := kvFind_some_mem hfind
+        obtain ⟨sub, hs⟩ := getAllSubs_rec_ok h (n, c) hmem
+        exact h3 (n, c) hmem sub hs (path', p) ((ih hs path' p).2 hsub)
+
+end Reg
+
+namespace Reg
+
+theorem getAll_total_aux {r : Reg} {rk : MId → Nat} (hwf : ∀ m, (r.get m).wf) (hrk : ∀ m c, r.child m c → rk c < rk m)
+    (hcl : ∀ m c, r.child m c → c < r.size) :
+    ∀ (f : Nat) (m : MId) (vis : List MId), Chain r rk (m :: vis) → r.size ≤ f + vis.length → ∃ l, getAll r f m = .ok l := by
+  intro f
+  induction f with
+  | zero =>
+    intro m vis hch hsz
+    have := hch.length_le
+    simp at this hsz
+    omega
+  | succ f ih =>
+    intro m vis hch hsz
+    simp only [getAll]
+    apply getAllSubs_ok
+    intro e he
+    have hc : r.child m e.2 := ((hwf m).sset_iff e.2).2 (List.mem_map.2 ⟨e, he, rfl⟩)
+    exact ih e.2 (m :: vis) (hch.cons hrk hcl hc) (by simp; omega)
+
+/-- Under the invariant the fuel `number of models` is enough: `has_submodel` returns. -/
+theorem hasSub_total {r : Reg} (hi : r.inv) (t : MId) {m : MId} (hm : m < r.size) : ∃ b, hasSub r t r.size m = .ok b := by
+  obtain ⟨rk, hrk⟩ := hi.acyclic
+  exact hasSub_total_aux hrk hi.closed t r.size m [] ⟨by simp, by simpa using hm⟩ (by simp)
+
+/-- Under the invariant the fuel `number of models` is enough: `get_all_parameters` returns. -/
+theorem getAll_total {r : Reg} (hi : r.inv) {m : MId} (hm : m < r.size) : ∃ l, getAll r r.size m = .ok l := by
+  obtain ⟨rk, hrk⟩ := hi.acyclic
+  exact getAll_total_aux hi.wf hrk hi.closed r.size m [] ⟨by simp, by simpa using hm⟩ (by simp)
+
+/-! ### lookups -/
+
+theorem getParameter_nil (r : Reg) (m : MId) : getParameter r m [] = .error := by
+  simp [getParameter, getSemiterminal]
+
+theorem getParameter_single (r : Reg) (m : MId) (n : Name) :
+    getParameter r m [n] = match kvFind (r.get m).paramKv n with | none => .error | some p => .ok p := by
+  rcases h : kvFind (r.get m).paramKv n with _ | p <;> simp [getParameter, getSemiterminal, walk, h]
+
+theorem getParameter_cons_cons (r : Reg) (m : MId) (n n' : Name) (rest : List Name) :
+    getParameter r m (n :: n' :: rest) =
+      match kvFind (r.get m).subKv n with | none => .error | some c => getParameter r c (n' :: rest) := by
+  simp only [getParameter, getSemiterminal, List.dropLast_cons_cons, walk, List.getLast?_cons_cons]
+  cases kvFind (r.get m).subKv n <;> simp
+
+theorem getSubmodel_nil (r : Reg) (m : MId) : getSubmodel r m [] = .error := by
+  simp [getSubmodel, getSemiterminal]
+
+theorem getSubmodel_single (r : Reg) (m : MId) (n : Name) :
+    getSubmodel r m [n] = match kvFind (r.get m).subKv n with | none => .error | some p => .ok p := by
+  rcases h : kvFind (r.get m).subKv n with _ | p <;> simp [getSubmodel, getSemiterminal, walk, h]
+
+theorem getSubmodel_cons_cons (r : Reg) (m : MId) (n n' : Name) (rest : List Name) :
+    getSubmodel r m (n :: n' :: rest) =
+      match kvFind (r.get m).subKv n with | none => .error | some c => getSubmodel r c (n' :: rest) := by
+  simp only [getSubmodel, getSemiterminal, List.dropLast_cons_cons, walk, List.getLast?_cons_cons]
+  cases kvFind (r.get m).subKv n <;> simp
+
+theorem getParameter_ok_iff (r : Reg) (m : MId) (path : Path) (p : PId) :
+    getParameter r m path = .ok p ↔ ResolvesP r m path p := by
+  induction path generalizing m with
+  | nil => rw [getParameter_nil]; constructor <;> intro h <;> cases h
+  | cons n rest ih =>
+    cases rest with
+    | nil =>
+      rw [getParameter_single]
+      constructor
+      · intro h; split at h
+        · cases h
+        · cases h; exact .here (by assumption)
+      · intro h
+        cases h with
+        | here h => simp [h]
+        | sub _ h => cases h
+    | cons n' rest =>
+      rw [getParameter_cons_cons]
+      constructor
+      · intro h; split at h
+        · cases h
+        · rename_i c hc; exact .sub hc ((ih c).1 h)
+      · intro h
+        cases h with
+        | sub h1 h2 => simp only [h1]; exact (ih _).2 h2
+
+theorem getParameter_ne_crash (r : Reg) (m : MId) (path : Path) : getParameter r m path ≠ .crash := by
+  induction path generalizing m with
+  | nil => simp [getParameter_nil]
+  | cons n rest ih =>
+    cases rest with
+    | nil => rw [getParameter_single]; split <;> simp
+    | cons n' rest => rw [getParameter_cons_cons]; split <;> simp [ih]
+
+theorem getSubmodel_ok_iff (r : Reg) (m : MId) (path : Path) (c : MId) :
+    getSubmodel r m path = .ok c ↔ ResolvesM r m path c := by
+  induction path generalizing m with
+  | nil => rw [getSubmodel_nil]; constructor <;> intro h <;> cases h
+  | cons n rest ih =>
+    cases rest with
+    | nil =>
+      rw [getSubmodel_single]
+      constructor
+      · intro h; split at h
+        · cases h
+        · cases h; exact .here (by assumption)
+      · intro h
+        cases h with
+        | here h => simp [h]
+        | sub _ h => cases h
+    | cons n' rest =>
+      rw [getSubmodel_cons_cons]
+      constructor
+      · intro h; split at h
+        · cases h
+        · rename_i c' hc; exact .sub hc ((ih c').1 h)
+      · intro h
+        cases h with
+        | sub h1 h2 => simp only [h1]; exact (ih _).2 h2
+
+theorem getSubmodel_ne_crash (r : Reg) (m : MId) (path : Path) : getSubmodel r m path ≠ .crash := by
+  induction path generalizing m with
+  | nil => simp [getSubmodel_nil]
+  | cons n rest ih =>
+    cases rest with
+    | nil => rw [getSubmodel_single]; split <;> simp
+    | cons n' rest => rw [getSubmodel_cons_cons]; split <;> simp [ih]
 
 end Reg
 
